@@ -35,8 +35,8 @@ THEOREMS = [
     "PathM.machEq_iff_cloneEq", "PathM.cloneEq_equivalence", "PathM.cloneEq_clone", "PathM.cloneEq_fresh",
     "PathM.clone_eq", "PathM.Mach.eq_trans",
 ]
-QUICK_N, THOROUGH_N = 9000, 60000
-QUICK_BUDGET, THOROUGH_BUDGET = 45, 900
+QUICK_N, THOROUGH_N = 9000, 36000
+QUICK_BUDGET, THOROUGH_BUDGET = 40, 600
 CASE_WALL = 20
 RULE = ("grid cases: a segment tuple (alphabet of 16 edge-case segments, length <= 3) with ~270 queries = every "
         "unary operation, parents[-4..4], slices, and every binary operation with every alphabet element as str / "
@@ -74,11 +74,11 @@ def gen_case(rng, params):
         st["rng"] = rng
         _STATE[id(rng)] = st
     r = rng.random()
-    if r < 0.50 and st["gi"] < len(st["grid"]):
+    if r < 0.60 and st["gi"] < len(st["grid"]):
         m, t = st["grid"][st["gi"]]
         st["gi"] += 1
         return g.grid_case(m, t, host=rng.choice([0, 0, 1, 3]) if m == "tpath" else 0)
-    if r < 0.54 and st["hi"] < len(st["hosts"]):
+    if r < 0.64 and st["hi"] < len(st["hosts"]):
         st["hi"] += 1
         return st["hosts"][st["hi"] - 1]
     while True:
@@ -126,9 +126,21 @@ def nontrivial(line, obs):
 
 
 def explain(line, impl, model):
+    qs = line.split()[5].split(";")
+    if impl == model and line.startswith("tpath "):
+        # the tbot model mirrors the code, the Spec (reference = pathlib + host rule) rejects both:
+        # show what pathlib answers (hosts play no role in the one known case, the with_suffix quirk)
+        try:
+            from leanproc import Lean
+            lean = Lean()
+            ref = lean.ask("path pure " + line[len("tpath "):])
+            lean.close()
+        except Exception as e:  # pragma: no cover
+            ref = f"(reference unavailable: {e})"
+        return (f"implementation and tbot model agree ({impl[:300]}); the reference (pathlib semantics) is "
+                f"{ref[:300]}" + ("; with_suffix('') on a stem '.' (pathlib 3.12 quirk)" if g.has_quirk(line) else ""))
     if impl.startswith("fail:") or model.startswith("fail:") or len(impl.split()) != len(model.split()):
         return f"impl={impl[:200]} model={model[:200]}"
-    qs = line.split()[5].split(";")
     return "; ".join(f"{q}: impl {a} / reference-model {b}"
                      for q, a, b in zip(qs, impl.split(), model.split()) if a != b)[:1000]
 
